@@ -40,6 +40,7 @@ def scope(tier):
 
 def cases(tier):
     sc = scope(tier)
+    run_case.tier = tier
     for m in range(0, sc['maxcols'] + 1):
         for kinds in itertools.product(KINDS, repeat=m):
             for n in sc['rows']:
@@ -106,6 +107,18 @@ def _snapany(r):
     if hasattr(r, '__iter__') and not isinstance(r, (str, bytes)):
         return ('iter', tuple(_snapany(x) for x in r))
     return norm(r)
+
+
+def opclass_of(name):
+    if name.startswith('iloc['):
+        return 'iloc[' + ('int' if name[5:].split(',')[0].lstrip('-').isdigit() else 'multi') + ',' + ('int' if name.rsplit(',', 1)[1][:-1].lstrip('-').isdigit() else 'multi') + ']'
+    if '.iloc[' in name:
+        return name.split('.iloc[')[0] + '.iloc[...]' + name.rsplit(']', 1)[1]
+    if name.startswith('assign.bloc['):
+        return 'assign.bloc[...]'      # one mechanism whatever the mask / value
+    if name.startswith('astype[['):
+        return 'astype[list]' + name.rsplit(']', 1)[1]
+    return name
 
 
 def op_menu(n, m, kinds):
@@ -193,6 +206,16 @@ def op_menu(n, m, kinds):
     return ops
 
 
+PREOPS = [
+    ('reverse-columns-twice', lambda f: f.iloc[:, ::-1].iloc[:, ::-1]),
+    ('concat-of-column-halves', lambda f: sf.Frame.from_concat((f.iloc[:, :1], f.iloc[:, 1:]), axis=1).rename(f.name) if f.shape[1] > 1 else f.iloc[:, :]),
+    ('double-transpose', lambda f: f.T.T),
+    ('assign-first-column-to-itself', lambda f: f.assign.iloc[:, 0](f.iloc[:, 0].values)),
+    ('concat-of-row-halves', lambda f: sf.Frame.from_concat((f.iloc[:1], f.iloc[1:])).rename(f.name) if f.shape[0] > 1 else f.iloc[:, :]),
+    ('astype-roundtrip-last', lambda f: f.astype[f.columns.values[-1]](object).astype[f.columns.values[-1]](f.dtypes.values[-1])),
+]
+
+
 def build_cols(kinds, n):
     cols = []
     for j, k in enumerate(kinds):
@@ -269,21 +292,48 @@ def run_case(case, ctx):
         ctx.outcome('raises' if any(k.startswith("('raises'") for k in outs) else 'ok')
         if len(outs) > 1:
             groups = sorted(outs.items(), key=lambda kv: -len(kv[1]))
-            opclass = name
-            if name.startswith('iloc['):
-                opclass = 'iloc[' + ('int' if name[5:].split(',')[0].lstrip('-').isdigit() else 'multi') + ',' + ('int' if name.rsplit(',', 1)[1][:-1].lstrip('-').isdigit() else 'multi') + ']'
-            elif '.iloc[' in name:
-                opclass = name.split('.iloc[')[0] + '.iloc[...]' + name.rsplit(']', 1)[1]
-            elif name.startswith('assign.bloc['):
-                opclass = 'assign.bloc[...]'      # one mechanism whatever the mask / value
-            elif name.startswith('astype[['):
-                opclass = 'astype[list]' + name.rsplit(']', 1)[1]
+            opclass = opclass_of(name)
             kinds_has = '+'.join(sorted(set(kinds)))
             dsig = diff_signature(objs[groups[0][0]], objs[groups[1][0]])
             ctx.violation(f'layout-dependent|{opclass}|{dsig}', kinds=kinds, nrows=n, operation=name,
                           majority=(groups[0][1][:3], groups[0][0][:300]), minority=(groups[1][1][:3], groups[1][0][:300]), kinds_present=kinds_has)
+    # non-initial states: the same content reached through another operation (whose result may be blocked differently under each layout) gets the
+    # selection / update / iteration part of the menu again
+    if 1 <= m <= 3 and n >= 1:     # (4-column frames get the first-level menu only: the derived-state pass costs 5x)
+        pre = PREOPS if run_case.tier != 'quick' else PREOPS[1:2]
+        for pname, pfn in pre:
+            derived = []
+            try:
+                for sig, f in frames:
+                    derived.append((sig, pfn(f)))
+            except Exception:
+                continue     # the derivation itself is compared by the first-level menu
+            if len(set(repr(snap(d)) for _, d in derived)) != 1:
+                continue     # idem
+            d0 = derived[0][1]
+            wanted = ('iloc[', 'assign.', 'drop.', 'mask.', 'astype', 'iter_', 'to_pairs', 'values', 'fillna', 'shift', 'roll', 'sort_', 'bloc', 'dropna', 'T')
+            if run_case.tier == 'quick':
+                wanted = ('assign.', 'drop.', 'astype', 'fillna', 'bloc', 'values', 'iter_array')
+            ops2 = [o for o in op_menu(d0.shape[0], d0.shape[1], kinds) if o[0].startswith(wanted)]
+            for name, fn in ops2:
+                outs, objs = {}, {}
+                for sig, d in derived:
+                    ctx.transition()
+                    o = outcome(lambda: fn(d))
+                    outs.setdefault(repr(o), []).append(sig)
+                    objs[repr(o)] = o
+                ctx.nontriv((kinds, n, pname, name))
+                if len(outs) > 1:
+                    groups = sorted(outs.items(), key=lambda kv: -len(kv[1]))
+                    opclass = opclass_of(name)
+                    dsig = diff_signature(objs[groups[0][0]], objs[groups[1][0]])
+                    ctx.violation(f'layout-dependent|{opclass}|{dsig}', kinds=kinds, nrows=n, derived_by=pname, operation=name,
+                                  majority=(groups[0][1][:3], groups[0][0][:300]), minority=(groups[1][1][:3], groups[1][0][:300]))
     # operands untouched by everything above
     for (sig, f), b in zip(frames, base_snaps):
         if snap(f) != b:
             ctx.violation('operand-changed', kinds=kinds, nrows=n, layout=sig)
     ctx.sample({'kinds': kinds, 'nrows': n, 'layouts': len(lays), 'operations': len(ops)}, limit=1)
+
+
+run_case.tier = 'quick'
